@@ -177,6 +177,12 @@ def build_job(job, tier):
 def link_shard(jd, job, params):
     tag = "_".join("%d-%d" % (k, v) for k, v in sorted(params.items())) or "p"
     out = os.path.join(jd, "shard-%s.gb" % tag)
+    with _build_lock:
+        lk = _unit_locks.setdefault(out, threading.Lock())
+    with lk:
+        return _link_shard_locked(jd, job, params, out)
+
+def _link_shard_locked(jd, job, params, out):
     if os.path.exists(out):
         return out
     defs = ["-DV_PARAM%d=%d" % (k, v) for k, v in params.items()]
@@ -539,7 +545,10 @@ def check_property(prop_id, tier, spec, seed):
             continue
         if s["status"] == "error":
             tool_errors.append("%s: %s" % (s["name"], s.get("detail", "")[:2000])); continue
-        if s["witness_unreached"] and not j.get("allow_unreached"):
+        if j.get("witness_any"):
+            if not s["witness_reached"]:
+                tool_errors.append("%s: VACUOUS - no witness reachable" % s["name"])
+        elif s["witness_unreached"] and not j.get("allow_unreached"):
             tool_errors.append("%s: VACUOUS - witness not reachable: %s" % (s["name"], s["witness_unreached"][:5]))
         if s["witness_total"] == 0:
             tool_errors.append("%s: no reachability witness in harness" % s["name"])
